@@ -655,8 +655,7 @@ class ColangParser:
         if (
             self.next_line is None
             or self.next_line["indentation"] <= self.current_line["indentation"]
-            and self.text.startswith("define user")
-        ):
+        ) and self.text.startswith("define user"):
             self.next_line = {
                 "text": self.text.replace("define user", ""),
                 # We keep the line mapping the same
@@ -667,7 +666,8 @@ class ColangParser:
             self.lines.insert(self.current_line_idx + 1, self.next_line)
 
         assert (
-            self.next_line["indentation"] > self.current_line["indentation"]
+            self.next_line is not None
+            and self.next_line["indentation"] > self.current_line["indentation"]
         ), "Expected indented block after define statement."
 
         self.text = remove_token("define", self.text)
